@@ -17,6 +17,9 @@ open Drv_tmpl
           tokenizer is in the RAWTEXT / PLAINTEXT state of such an element at the failing place;
      D42  finding_D42 text (static text has a DOCTYPE declaration) AND the tokenizer is inside a DOCTYPE at the
           failing place, or the two skeletons differ only in the name of DOCTYPE tokens;
+     D44  finding_D44 text (the tokenizer finds a start tag of script / style / textarea / title with an
+          attribute whose name contains a less-than sign) AND the tokenizer is inside such an element
+          at the failing place;
      D43  finding_D43 trees (a text node of the template ends inside a tag name) AND, in the placement stream,
           the offending bytes were consumed as part of a tag name;
      D1   finding_D1 trees (a template called from >= 2 sites whose body changes the context). *)
@@ -45,20 +48,24 @@ let untracked_raw (n : V.n list) : bool = List.mem n V.untracked_rawtext_names
 let is_raw_state (st : V.hstate) : bool =
   match V.last_start_tag st with Some n -> untracked_raw n | None -> false
 
+let is_special_state (st : V.hstate) : bool =
+  match V.last_start_tag st with Some n -> List.mem n V.special_names | None -> false
+
 let is_doctype_state = function V.SDoctype | V.SDoctypeName | V.SDoctypeRest -> true | _ -> false
 
 (* where the failure shows: which tokenizer construct is involved *)
-type where = { script : bool; raw : bool; doctype : bool; tagname : bool }
-let nowhere = { script = false; raw = false; doctype = false; tagname = false }
+type where = { script : bool; raw : bool; doctype : bool; tagname : bool; special : bool }
+let nowhere = { script = false; raw = false; doctype = false; tagname = false; special = false }
 (* in the struct stream the failing place is not located: the tag-name finding is left to its classifier *)
 let where_of_states (l : V.hstate list) =
   { script = List.exists is_script_state l; raw = List.exists is_raw_state l; doctype = List.exists is_doctype_state l;
-    tagname = true }
+    tagname = true; special = List.exists is_special_state l }
 
 let finding_tag ~(text : V.n list) ~(parsed : string) (w : where) : string =
   if w.script && V.finding_D13 text then "\tfinding=D13"
   else if w.raw && V.finding_D41 text then "\tfinding=D41"
   else if w.doctype && V.finding_D42 text then "\tfinding=D42"
+  else if w.special && V.finding_D44 text then "\tfinding=D44"
   else begin
     let trees = try trees_of_wire parsed with _ -> [] in
     if w.tagname && V.finding_D43 trees then "\tfinding=D43"
@@ -123,7 +130,8 @@ let () =
                   else if not (V.class_ok cls.(i)) then begin
                     bad := Some (class_name cls.(i));
                     w := (match cls.(i) with
-                        | V.PScript -> { nowhere with script = true }
+                        | V.PScript -> { nowhere with script = true; special = true }
+                        | V.PRawtext n when List.mem n V.special_names -> { nowhere with special = true }
                         | V.PRawtext n when untracked_raw n -> { nowhere with raw = true }
                         | V.PPlaintext -> { nowhere with raw = true }
                         | V.PDoctype -> { nowhere with doctype = true }
